@@ -35,11 +35,16 @@
     of operand and result have the same directions and carry the same charges, and the Koszul /
     nesting signs of the contraction (`gradedSign`) do not see the leading block, which stays in
     place (`TdotP.lead_commute_graded`, `TdotP.gradedSign_lead`).
+  * `tensordot_fuse_free_commute_fermionic_any_mode`: the same with the plain contraction in mode
+    `m1` and the contraction of the pre-fused operand in mode `m2` (each blockwise / fused / auto):
+    results of fused / auto calls are paddings (`TdotP.Pad`) of the blockwise results, whose
+    elements agree at every address inside the operands' tables (`TdotP.pad_elem_big`).
+  * `fuseF_leading_elem`: `fuseF(Z, [0 … k-1])` of any valid fermionic array at decoded addresses:
+    the C05 fuse sign times the element of `Z`.
   NOT proved: the fermionic two-sided form (fusing the contracted legs of fermionic operands);
   a group of free legs at an arbitrary position WITHOUT the preliminary transposition (for
   fermions the transposition contributes its Koszul sign on both sides); free legs of the RIGHT
-  operand alone (the two-sided `tensordot_fuse_commute` covers both sides together); the
-  fermionic form with the contractions in fused / auto mode;
+  operand alone (the two-sided `tensordot_fuse_commute` covers both sides together);
   equality of `to_dense()` for fused-mode chain results (false in general: fused-mode results keep
   the charges of all-zero blocks in their index tables, so the dense shapes differ).
 -/
@@ -48,6 +53,7 @@ import SymmModel.Props.C04f
 import SymmModel.Proofs.TdotChain2
 import SymmModel.Proofs.TdotFuseC3
 import SymmModel.Proofs.TdotFuseC6
+import SymmModel.Proofs.TdotFuseC7
 
 namespace SymmModel.C06
 open SymmModel SymmModel.TdotP SymmModel.GradedP SymmModel.RoutesP SymmModel.AssocP
@@ -194,6 +200,52 @@ theorem tensordot_fuse_free_commute_fermionic [AddCommMonoid R] [Mul R] [Neg R] 
               (c2 :: rest) (i2 :: orest) :=
   lead_commute_fermi hz1 hz2 a b c xa xb k e ha hb hfa hfb hadm hk1 hk hxa hc
 
+/-- **tensordot_fuse_free_commute_fermionic_any_mode**: `tensordot_fuse_free_commute_fermionic`
+    with the plain contraction in mode `m1` and the contraction of the pre-fused operand in mode
+    `m2` (each of blockwise / fused / auto); `cm` is the result of the plain contraction in mode
+    `m1`, the decoders and the tail tables are those of `cm`. -/
+theorem tensordot_fuse_free_commute_fermionic_any_mode [AddCommMonoid R] [Mul R] [Neg R] [SignRing R]
+    (hz1 : ∀ x : R, 0 * x = 0) (hz2 : ∀ x : R, x * 0 = 0) (a b cm : Arr R) (xa xb : List Nat) (k : Nat)
+    (e : Bool) (m1 m2 : TdotMode)
+    (ha : a.validB = true) (hb : b.validB = true) (hfa : a.fermi = true) (hfb : b.fermi = true)
+    (hadm : tdotAdmissibleCommonB a b xa xb = true)
+    (hk1 : 1 ≤ k) (hk : k ≤ a.ndim) (hxa : ∀ x ∈ xa, k ≤ x)
+    (hcm : a.tensordotF b (.pair (xa.map Int.ofNat) (xb.map Int.ofNat)) m1 = .ok cm) :
+    a.fuseF [List.range k] .insert e
+        = .ok (FuseP.fusedArrM (FuseP.signAdj a [List.range k]) [List.range k])
+    ∧ cm.fuseF [List.range k] .insert e
+        = .ok (FuseP.fusedArrM (FuseP.signAdj cm [List.range k]) [List.range k])
+    ∧ k ≤ cm.ndim
+    ∧ ∃ cPm, (FuseP.fusedArrM (FuseP.signAdj a [List.range k]) [List.range k]).tensordotF b
+          (.pair ((xa.map (sh k)).map Int.ofNat) (xb.map Int.ofNat)) m2 = .ok cPm
+      ∧ ∀ (c0 c2 : Charge) (i0 d0 i2 d2 : Nat) (S rest : Sector) (O orest shp : List Nat),
+        decAx (FuseP.signAdj a [List.range k]) [List.range k] 0 c0 i0 = some (S, O) →
+        (FuseP.ixM (FuseP.signAdj a [List.range k]) [List.range k] 0).sizeOf? c0 = some d0 → i0 < d0 →
+        decAx (FuseP.signAdj cm [List.range k]) [List.range k] 0 c2 i2 = some (S, O) →
+        (FuseP.ixM (FuseP.signAdj cm [List.range k]) [List.range k] 0).sizeOf? c2 = some d2 → i2 < d2 →
+        Arr.blockShape? (cm.indices.drop k) rest = some shp → inBox shp orest = true →
+        cPm.elem (c0 :: rest) (i0 :: orest)
+          = (FuseP.fusedArrM (FuseP.signAdj cm [List.range k]) [List.range k]).elem
+              (c2 :: rest) (i2 :: orest) :=
+  lead_commute_fermi_modes hz1 hz2 a b cm xa xb k e m1 m2 ha hb hfa hfb hadm hk1 hk hxa hcm
+
+/-- **fuseF_leading_elem**: the fermionic fuse of the leading legs `0 … k-1` of any valid fermionic
+    array `Z` (pending phases arbitrary) succeeds, is valid, and at a position `(c2, i2)` of the
+    fused leg that its own table decodes to `(S, O)` — the rest of the address inside `Z`'s tables —
+    holds the C05 fuse sign `fuseSignT` times `Z`'s element at `(S ++ rest, O ++ orest)`. -/
+theorem fuseF_leading_elem [AddCommMonoid R] [Mul R] [Neg R] [SignRing R] (Z : Arr R) (k : Nat) (e : Bool)
+    (hv : Z.validB = true) (hf : Z.fermi = true) (hk1 : 1 ≤ k) (hk : k ≤ Z.ndim) :
+    Z.fuseF [List.range k] .insert e
+        = .ok (FuseP.fusedArrM (FuseP.signAdj Z [List.range k]) [List.range k])
+    ∧ (FuseP.fusedArrM (FuseP.signAdj Z [List.range k]) [List.range k]).validB = true
+    ∧ ∀ (c2 : Charge) (i2 d2 : Nat) (S rest : Sector) (O orest shp : List Nat),
+        decAx (FuseP.signAdj Z [List.range k]) [List.range k] 0 c2 i2 = some (S, O) →
+        (FuseP.ixM (FuseP.signAdj Z [List.range k]) [List.range k] 0).sizeOf? c2 = some d2 → i2 < d2 →
+        Arr.blockShape? (Z.indices.drop k) rest = some shp → inBox shp orest = true →
+        (FuseP.fusedArrM (FuseP.signAdj Z [List.range k]) [List.range k]).elem (c2 :: rest) (i2 :: orest)
+          = Lazy.sgnI (FuseP.fuseSignT Z [List.range k] (S ++ rest)) (Z.elem (S ++ rest) (O ++ orest)) :=
+  fuseF_lead Z k e hv hf hk1 hk
+
 /-- the sign-adjusted operand of the fermionic fuse of the leading group is `a` itself with every
     sector multiplied by the C05 fuse sign `fuseSignT` (same index tables, same stored sectors, no
     pending phases) — this is what the decoders of `tensordot_fuse_free_commute_fermionic` read -/
@@ -326,6 +378,19 @@ example :
         | .ok cf, .ok cq =>
           cf.phaseSync.blocks.all (fun p => (alookup cq.phaseSync.blocks p.1).map (·.data) == some p.2.data)
           && cf.blocks.length == cq.blocks.length && cf.blocks.length == 3
+        | _, _ => false
+     | _, _ => false) = true := by decide +kernel
+
+-- the same in fused / auto mode
+example :
+    (match C03.gA.fuseF [[0, 1]] .insert false, C03.gA.tensordotF C04.cB (.pair [2] [0]) .fused with
+     | .ok af, .ok c =>
+        match af.tensordotF C04.cB (.pair [1] [0]) .auto, c.fuseF [[0, 1]] .insert false with
+        | .ok cf, .ok cq =>
+          cq.phaseSync.blocks.all (fun p => p.2.data.all (· == 0)
+            || (alookup cf.phaseSync.blocks p.1).map (·.data) == some p.2.data)
+          && cf.phaseSync.blocks.all (fun p => p.2.data.all (· == 0)
+            || (alookup cq.phaseSync.blocks p.1).map (·.data) == some p.2.data)
         | _, _ => false
      | _, _ => false) = true := by decide +kernel
 
